@@ -161,8 +161,10 @@ def triggersBinary (f : String) (x y : SNum) : List String :=
 def withTriggers (verdict : String) (ts : List String) : String :=
   if verdict.startsWith "FAIL" && !ts.isEmpty then verdict ++ " [trigger:" ++ ",".intercalate ts.eraseDups ++ "]" else verdict
 
-/-- judge an implementation line against what is wanted -/
+/-- judge an implementation line against what is wanted; a Go panic is never acceptable, also where
+    the property leaves the result open -/
 def judge (w : Want) (impl : String) : String :=
+  if impl.startsWith "panic" then "FAIL the implementation panicked" else
   match w with
   | .free => "-"
   | .num n => if impl == "ok " ++ n.wire then "ok" else s!"FAIL want ok {n.wire}"
